@@ -1048,7 +1048,7 @@ func runCase(t *table, cs CaseSpec, run *lib.Run) string {
 		}
 		reads = append(reads, fmt.Sprintf("(%s (%s, [%s]))", strings.Join(lets, " "), r.reqTerm(rs), strings.Join(refs, ";")))
 	}
-	return fmt.Sprintf("mkCase\n   [%s]\n   [%s]\n   [%s]\n   [%s]\n   [%s]", strings.Join(hist, ";\n    "), strings.Join(rx, ";"), strings.Join(reads, ";\n    "), strings.Join(tail, ";\n    "), strings.Join(phases, ";\n    "))
+	return fmt.Sprintf("mkCase\n   [%s]\n   [%s]\n   [%s]\n   [%s]\n   [%s]\n   []", strings.Join(hist, ";\n    "), strings.Join(rx, ";"), strings.Join(reads, ";\n    "), strings.Join(tail, ";\n    "), strings.Join(phases, ";\n    "))
 }
 
 func main() {
@@ -1067,6 +1067,7 @@ func main() {
 		specs = []CaseSpec{c}
 	} else {
 		specs = corpus()
+		specs = append(specs, CaseSpec{Name: "scheduled"}) // pairs of overlapping requests (sched.go)
 		n := 20
 		if o.Thorough() {
 			n = 90
@@ -1083,18 +1084,22 @@ func main() {
 	dv.Open()
 	terms := make([]string, len(specs))
 	for i := range specs {
-		if specs[i].Tail == nil && o.Replay == "" {
+		if specs[i].Tail == nil && o.Replay == "" && specs[i].Name != "scheduled" {
 			specs[i].Tail = defaultTail(specs[i])
 		}
 	}
 	for i, cs := range specs {
+		if cs.Name == "scheduled" {
+			terms[i] = runSchedules(t, run)
+			continue
+		}
 		terms[i] = runCase(t, cs, run)
 	}
 	dv.Close()
 
-	// the implementation must match the repaired model, or the one with the first six repairs
-	// while C16-7/8 are pending; VERIF_C16_VARIANT=shipped|interim|repaired pins one model
-	variant := "[repaired; interim]"
+	// all nine repairs are fix: commits of /repo: the implementation must match the repaired model
+	// (VERIF_C16_VARIANT=shipped|interim|repaired compares with another one)
+	variant := "[repaired]"
 	if v := os.Getenv("VERIF_C16_VARIANT"); v != "" {
 		variant = "[" + v + "]"
 	}
